@@ -168,7 +168,7 @@ def hostile_ints(rnd, maxima):
 
 def mutate_text(data, rnd, maxima):
     kind = rnd.choice(["int", "int", "int", "int", "trunc", "trunc", "seg", "nul", "dropline", "dupline", "bigint", "hdr", "hdrline",
-                       "str", "str"])
+                       "str", "str", "wide"])
     lines = data.split(b"\n")
     if kind == "str":            # string literals "h<len>:<chars>": hostile lengths, and the input ending inside the literal
         lits = [(m.start(), m.end(), int(m.group(1))) for m in re.finditer(rb"(?m)^h(\d+):", data)]
@@ -192,6 +192,13 @@ def mutate_text(data, rnd, maxima):
         parts[0] = re.sub(rb"\d+", str(v).encode(), parts[0])
         lines[i] = b"#".join(parts)
         return b"\n".join(lines), "hdrline@%d=%d" % (i, v)
+    if kind == "wide":           # any number of the file becomes one outside the range of int / long / double
+        toks = [(m.start(), m.end()) for m in re.finditer(rb"(?<![\w.#])[-+]?\d[\d.]*(?:e[-+]?\d+)?(?![\w.])", data)]
+        if not toks:
+            return None
+        s, e = rnd.choice(toks)
+        w = rnd.choice(WIDE)
+        return data[:s] + w + data[e:], "wide@%d=%s" % (s, w.decode())
     if kind in ("int", "bigint", "hdr"):
         toks = []
         off = 0
@@ -240,6 +247,22 @@ def string_mutations(data):
             out.append((data[:en + k], "strcut@%d+%d" % (st, k)))
             big = data[:st] + b"h2000000000:" + data[en:]
             out.append((big[:st + len(b"h2000000000:") + k], "strcutbig@%d+%d" % (st, k)))
+    return out
+
+
+WIDE = [b"99999999999999999999", b"-99999999999999999999", b"9223372036854775808", b"-9223372036854775809", b"1e30", b"-1e30",
+        b"1e400", b"2147483648", b"1e19", b"nan", b"inf"]
+
+
+def wide_number_mutations(data):
+    """Every numeric field of the first header line (format arguments and AMPL options, which the reader converts
+    from double to long) replaced by numbers outside the range of int / long / double."""
+    nl = data.find(b"\n")
+    first = data[:nl].split(b"#")[0]
+    out = []
+    for m in list(re.finditer(rb"(?<![\w.])[-+]?[\d.]+(?:e[-+]?\d+)?(?![\w.])", first))[1:]:
+        for w in WIDE:
+            out.append((data[:m.start()] + w + data[m.end():], "wide@%d=%s" % (m.start(), w.decode())))
     return out
 
 
@@ -365,6 +388,9 @@ def make_inputs(tier, rnd, exe):
             if tagc == "t":
                 for j2, (mdat, _lab) in enumerate(string_mutations(data)):
                     emit("%s_t_str%d.nl" % (base, j2), mdat, "mut", base)
+                if len([1 for q in inputs if "_t_wide" in q[0]]) < (400 if tier != "thorough" else 4000):
+                    for j2, (mdat, _lab) in enumerate(wide_number_mutations(data)):
+                        emit("%s_t_wide%d.nl" % (base, j2), mdat, "mut", base)
     # a few degenerate byte strings
     edge = [b"", b"g", b"b", b"\0", b"g3 1 1 0\n", b"b3 1 1 0\n 1 0 0\n", b"g3 1 1 0\n" + b" 0\n" * 9, b"x" * 10,
             b"g" + b"9" * 400 + b"\n", b"g3 1 1 0\n 1 0 0\n 0 0\n 0 0\n 0 0 0\n 0 0 0 1\n 0 0 0 0 0\n 0 0\n 0 0\n 0 0 0 0 0\n",
